@@ -455,8 +455,11 @@ nodesLoop:
 			tc.addToAncestors(node)
 			// Check the init.
 			if node.Init != nil {
-				// TODO: this type assertion should be removed/handled differently.
-				tc.checkGenericAssignmentNode(node.Init.(*ast.Assignment))
+				if init, ok := node.Init.(*ast.Assignment); ok {
+					tc.checkGenericAssignmentNode(init)
+				} else {
+					tc.checkNodes([]ast.Node{node.Init})
+				}
 			}
 			// Check the expression.
 			var texpr *typeInfo
@@ -547,8 +550,11 @@ nodesLoop:
 			tc.scopes.Enter(node)
 			tc.addToAncestors(node)
 			if node.Init != nil {
-				// TODO: this type assertion should be removed/handled differently.
-				tc.checkGenericAssignmentNode(node.Init.(*ast.Assignment))
+				if init, ok := node.Init.(*ast.Assignment); ok {
+					tc.checkGenericAssignmentNode(init)
+				} else {
+					tc.checkNodes([]ast.Node{node.Init})
+				}
 			}
 			ta := node.Assignment.Rhs[0].(*ast.TypeAssertion)
 			t := tc.checkExpr(ta.Expr)
